@@ -523,6 +523,16 @@ func runNet(dir string, seed uint64, tier string) {
 				}
 			}
 		}
+		flagMismatch := false
+		if nmsg == 1 && tail < 6 && r.chance(12) {
+			// a single message whose IsRq flag names the body that is absent: schema-valid, yet malformed
+			// (its body is missing) -- by construction, whatever the decoder makes of it
+			b := buf.Bytes()
+			if len(b) > 7 && (b[6] == 0xf5 || b[6] == 0xf4) && bytes.HasPrefix(b[1:], []byte{0x64, 'I', 's', 'R', 'q'}) {
+				b[6] ^= 0x01
+				flagMismatch = true
+			}
+		}
 		buf.Write(tailBytes)
 		// What the stream "is" is decided by the codec (C12's subject, not C15's): decode it the way a
 		// reader would, message after message.  Note that the codec rejects trailing bytes, so a stream
@@ -530,6 +540,10 @@ func runNet(dir string, seed uint64, tier string) {
 		items, want = nil, nil
 		rd := bytes.NewReader(buf.Bytes())
 		for {
+			if flagMismatch {
+				items = append(items, "IBad")
+				break
+			}
 			m, derr := message.FromNet(rd)
 			if derr == nil {
 				k := kindOfMsg(m)
